@@ -32,5 +32,5 @@ with open(os.path.join(VERIF, "seeded", "INDEX.md"), "w") as f:
             "client program that must not compile, so 0 / 101 means \"compiles only with the change\").\n\n"
             "| id | property | change | suite pass/fail | demo rc with / without | caught by | first signature | inconclusive |\n|---|---|---|---|---|---|---|---|\n")
     for r in rows:
-        f.write("| " + " | ".join(str(x) for x in r) + " |\n")
+        f.write("| " + " | ".join(str(x).replace("|", "/") for x in r) + " |\n")
 print("rows", len(rows), "missed", [r[0] for r in rows if r[5] == "**none**"])
